@@ -277,7 +277,10 @@ def pool_codec(ctx):
         okm = len(w16) == 1 and len(w8) == 1 and re.fullmatch(r"\((.*) as u16\)", w16[0]) is not None and re.fullmatch(r"\(\((.*) Shr c:16\) as u8\)", w8[0]) is not None and \
             re.fullmatch(r"\((.*) as u16\)", w16[0]).group(1) == re.fullmatch(r"\(\((.*) Shr c:16\) as u8\)", w8[0]).group(1)
     ctx.check(okm, R, "StringRef::write masks", str(masks), "StringRef::write masks with %s (expected 0xffff and 0xff, or the truncating casts `as u16` / `>> 16 as u8`)" % masks, fw.loc(), fn=fw.name)
-    ctx.check(any(o[0] == "BitOr" for o in br) and any(o[0] in ("Eq", "Ne") and o[1][1] == "c:0" for o in br), R, "StringRef::read combines and maps 0 to None", "",
+    # zero reads as None: `if number == 0` or a `match` on the combined number with an arm for 0
+    zero_arm = any(not bl["cleanup"] and bl["term"]["t"] == "switch" and any(v == 0 for (v, tg) in bl["term"]["cases"]) and
+                   re.search(r"BitOr|read_u16", Sr.val(bl["term"]["discr"])) and not Sr.val(bl["term"]["discr"]).startswith("discr(") for bl in fr.blocks)
+    ctx.check(any(o[0] == "BitOr" for o in br) and (zero_arm or any(o[0] in ("Eq", "Ne") and o[1][1] == "c:0" for o in br)), R, "StringRef::read combines and maps 0 to None", "",
               "StringRef::read does not OR the third byte in / map 0 to None", fr.loc(), fn=fr.name)
     # conditional third byte under the flag on both sides
     r3 = [(b, t) for b, t in fr.calls() if (t.get("callee") or "").endswith("read_u8")]
